@@ -263,7 +263,7 @@ func init() {
 				w.Stats().States++
 				w.Stats().Transitions += int64(len(supplied))
 				if c07CheckToken(w, tok, supplied, id, human) {
-					w.Class("faithful")
+					w.Class(fmt.Sprintf("faithful:position-%d", pos))
 					if len(contents[i/4]) > 0 {
 						w.NontrivialByIndex()
 					}
